@@ -86,6 +86,10 @@ impl Rng {
         }
         v
     }
+    pub fn payload_of(&mut self, sizes: &[usize]) -> Vec<u8> {
+        let n = *self.pick(sizes);
+        self.payload(n)
+    }
     pub fn bytes_range(&mut self, lo: usize, hi: usize) -> Vec<u8> {
         let n = self.urange(lo, hi);
         self.bytes(n)
